@@ -16,7 +16,7 @@ def Res.map (f : α → β) : Res α → Res β
     and the value of `m'` is the `h`-image of the value of `m`. -/
 def Sim (h : α → β) (m : P α) (m' : P β) : Prop := ∀ s, Res.map h (m s) = m' s
 
-theorem bind_apply (m : P α) (f : α → P β) (s : St) :
+theorem bind_apply_dv (m : P α) (f : α → P β) (s : St) :
     (m >>= f) s = match m s with
       | .ok a s' => f a s'
       | .err e s' => .err e s'
@@ -29,14 +29,14 @@ theorem Sim.bind {h : α → β} {g : γ → δ} {m : P α} {m' : P β} {f : α 
     (hm : Sim h m m') (hf : ∀ a, Sim g (f a) (f' (h a))) : Sim g (m >>= f) (m' >>= f') := by
   intro s
   have := hm s
-  rw [bind_apply, bind_apply, ← this]
+  rw [bind_apply_dv, bind_apply_dv, ← this]
   cases m s <;> simp only [Res.map]
   exact hf _ _
 
 theorem Sim.bind_same {g : γ → δ} {m : P α} {f : α → P γ} {f' : α → P δ}
     (hf : ∀ a, Sim g (f a) (f' a)) : Sim g (m >>= f) (m >>= f') := by
   intro s
-  rw [bind_apply, bind_apply]
+  rw [bind_apply_dv, bind_apply_dv]
   cases m s <;> simp only [Res.map]
   exact hf _ _
 
@@ -428,7 +428,7 @@ def Post (Q : α → Prop) (m : P α) : Prop := ∀ s a s', m s = .ok a s' → Q
 theorem Post.bind {R : α → Prop} {Q : β → Prop} {m : P α} {f : α → P β}
     (hm : Post R m) (hf : ∀ a, R a → Post Q (f a)) : Post Q (m >>= f) := by
   intro s b s' h
-  rw [bind_apply] at h
+  rw [bind_apply_dv] at h
   cases hms : m s with
   | ok a s1 =>
     rw [hms] at h
